@@ -379,6 +379,16 @@ def rule_chunk_protocol(ck, m, rid):
                 n_calls += 1
                 ck.ob(rid, enclosing_stmt(c), not c.args and not c.keywords, f"{q}: get_chunks is called with another chunk size `{short(c, 50)}`", stmt=f"{q}: get_chunks() with the default size")
     ck.expect(n_calls >= 2, f"expected >= 2 call sites of get_chunks, found {n_calls}")
+    # the chunks of one transmission are contiguous on the wire: a loop over get_chunks() emits the chunk and nothing else (another
+    # graphics command between an m=1 chunk and its continuation breaks the chunked transmission)
+    for rel, q, fn in m.functions():
+        for lp in body_walk(fn):
+            if isinstance(lp, ast.For) and isinstance(lp.iter, ast.Call) and (call_name(lp.iter) or "").split(".")[-1] == "get_chunks" and isinstance(lp.target, ast.Name):
+                v_ = lp.target.id
+                others = [c for st_ in lp.body for c in walk_local(st_) if isinstance(c, ast.Call) and isinstance(c.func, (ast.Attribute, ast.Name))
+                          and (norm(c.func).endswith(("write", "print")) or norm(c.func) in ("print",)) and [norm(a_) for a_ in c.args] != [v_]]
+                ck.ob(rid, lp, not others and not lp.orelse, f"{q}: the loop over get_chunks() also writes `{short(others[0], 50) if others else ''}`: the chunks of one transmission must follow each other directly "
+                      "(a command between an m=1 chunk and its continuation aborts the chunked transmission)", stmt=f"{q}: chunks of a transmission are contiguous")
     # the m-flag protocol itself: decided by exploring the finite abstract state space of the generator (tiv.protocol) whatever the shape
     # of its loop; the idiom rules below are the fallback for generators outside the interpreted fragment (e.g. index slicing)
     from tiv.protocol import Explorer, Undecidable
